@@ -106,8 +106,11 @@ def insertSorted (s : String) : List String → List String
 
 def sortStrings (l : List String) : List String := l.foldl (fun acc s => insertSorted s acc) []
 
-def storeStr (issued : List Bytes) (st : Store) : String :=
-  "[" ++ joinWith ";" (sortStrings (st.recs.map fun r => s!"{canonKey issued r.sid}@{r.timeout}={abbr r.data}")) ++ "]"
+/-- `live = some now`: only records whose deadline has not passed (several network nodes: each node's memory
+storage collects expired records on its own schedule, so only the visible records are compared) -/
+def storeStr (issued : List Bytes) (st : Store) (live : Option Int := none) : String :=
+  let recs : List Rec := match live with | some now => st.recs.filter (fun (r : Rec) => decide (now ≤ r.timeout)) | none => st.recs
+  "[" ++ joinWith ";" (sortStrings (recs.map fun (r : Rec) => s!"{canonKey issued r.sid}@{r.timeout}={abbr r.data}")) ++ "]"
 
 def opChar : StOp → String
   | .load => "l" | .save => "s" | .remove => "r"
@@ -159,6 +162,7 @@ structure World where
   next : Nat
   jars : List (Nat × Jar)
   issued : List Bytes
+  liveOnly : Bool := false     -- network storage with several nodes
 
 def jarOf (w : World) (b : Nat) : Jar := (w.jars.lookup b).getD Jar.empty
 
@@ -202,9 +206,11 @@ def parseLoc : String → Option Loc
 /-- `network` = `session_tcp_storage` → `tcp_cache_service` → memory storage: the session opcodes carry
 (sid, 64-bit deadline, data) verbatim, so behind the interface it is the memory storage -/
 def parseKind : String → Option Kind
-  | "memory" => some .memory | "files" => some .files | "network" => some .memory | _ => none
+  | "memory" => some .memory | "files" => some .files | "network" => some .memory
+  | "network2" => some .memory | "network3" => some .memory      -- several nodes: still one store addressed by sid
+  | _ => none
 
-def emptyWorld (cfg : Cfg) : World := ⟨cfg, ⟨[], []⟩, 0, [], []⟩
+def emptyWorld (cfg : Cfg) (liveOnly : Bool := false) : World := ⟨cfg, ⟨[], []⟩, 0, [], [], liveOnly⟩
 
 def runReq (trace : Bool) (w : World) (b : Nat) (now : Int) (spec : String) (ops : List Op) : World × String :=
   match presented w b spec with
@@ -223,8 +229,35 @@ def runReq (trace : Bool) (w : World) (b : Nat) (now : Int) (spec : String) (ops
       if trace then traceStr o
       else
         s!"P {canonTok issued0 c} R {readsStr o.reads} S {saveStr o.saved} C [{joinWith ";" (o.cookies.map (cookieStr issued))}] " ++
-        s!"J {jarStr issued j2} T {storeStr issued o.store} A {logStr issued o.store.log}"
+        s!"J {jarStr issued j2} T {storeStr issued o.store (if w.liveOnly then some now else none)} A {logStr issued o.store.log}"
     (w', out)
+
+/-- `req2`: one object, two loads (`set_cookie_adapter_and_reload`) -/
+def runReq2 (trace : Bool) (w : World) (b : Nat) (now : Int) (spec1 : String) (ops1 : List Op) (spec2 : String) (ops2 : List Op) : World × String :=
+  let j0 := jarOf w b
+  let j1a : Jar := match presented w b spec1 with
+    | some c1 => if spec1 == "jar" then j0 else { j0 with cookie := c1 }
+    | none => j0
+  -- the second cookie is resolved against the jars as they are once the first one is installed
+  match presented w b spec1, presented (setJar w b j1a) b spec2 with
+  | some c1, some c2 =>
+    let j1 : Jar := if spec2 == "jar" then j1a else { j1a with cookie := c2 }
+    let names := j0.exposed.map (·.1)
+    let st0 : Store := { w.store with log := [] }
+    let r := request2 ⟨w.cfg, envStd, now, c1, names⟩ ⟨w.cfg, envStd, now, c2, names⟩ st0 w.next ops1 ops2
+    let o := r.out
+    let issued0 := w.issued
+    let issued := addIssued issued0 o.cookies
+    let j2 := j1.applyAll o.cookies
+    let w' := setJar { w with store := o.store, next := o.next, issued := issued } b j2
+    let out :=
+      if trace then "reload " ++ traceStr o
+      else
+        s!"P1 {canonTok issued0 c1} R1 {readsStr r.reads1} P {canonTok issued0 c2} R {readsStr o.reads} S {saveStr o.saved} " ++
+        s!"C [{joinWith ";" (o.cookies.map (cookieStr issued))}] " ++
+        s!"J {jarStr issued j2} T {storeStr issued o.store (if w.liveOnly then some now else none)} A {logStr issued o.store.log}"
+    (w', out)
+  | _, _ => (w, "bad-op")
 
 /-! ### the judge: `Spec.lean` evaluated on the implementation's answers -/
 
@@ -269,7 +302,7 @@ def liveInStore (t : String) (p : String) (now : Int) : Bool :=
     | [k, rest] => k == p && (match parseInt ((rest.splitOn "=").headD "") with | some d => decide (now ≤ d) | none => true)
     | _ => false
 
-def judgeReq (js : JState) (b : Nat) (now : Int) (spec : String) (ops : List Op) (impl : List String) : JState × String :=
+def judgeReq (js : JState) (b : Nat) (now : Int) (spec : String) (ops : List Op) (impl : List String) (reset0 : Bool := false) (reloaded : Bool := false) : JState × String :=
   match fieldsOf impl with
   | none => (js, "0 unparsable implementation answer")
   | some (p, r, s, c, j, t, a) =>
@@ -295,7 +328,7 @@ def judgeReq (js : JState) (b : Nat) (now : Int) (spec : String) (ops : List Op)
         | _ => r
       if expectR != gotR then fail s!"reads differ from the token's session: expected {expectR}"
       else
-        let w := ops.foldl (fun w o => Spec.applyOp Spec.decimal js.df w (specOp o)) w0
+        let w := ops.foldl (fun w o => Spec.applyOp Spec.decimal js.df w (specOp o)) { w0 with reset := reset0 }
         let cookies := unbracket c
         let sess := (cookies.filter fun x => x.startsWith "@=").getLast?
         let jarTok := (j.splitOn ",[").headD ""
@@ -317,7 +350,8 @@ def judgeReq (js : JState) (b : Nat) (now : Int) (spec : String) (ops : List Op)
           else (js1, "1")
         | .untouched =>
           if s != "ok" then fail "save: unexpected exception"
-          else if jarTok != p then fail "untouched session but the session cookie changed"
+          -- (after a reload the first load may already have told the browser to drop its cookie: not this load's doing)
+          else if !reloaded && jarTok != p then fail "untouched session but the session cookie changed"
           else (js, "1")
         | .saved ss fresh cookieAge =>
           if s != "ok" then fail "save: unexpected exception"
@@ -338,6 +372,28 @@ def judgeReq (js : JState) (b : Nat) (now : Int) (spec : String) (ops : List Op)
               else if cookieAge ≥ 0 && honest && sortStrings jarExp != expExposed ss.data then (js1, "0 exposed cookies out of step with the session")
               else if p.startsWith "I" && tok != p && liveInStore t p now then (js1, "0 replaced server-side identifier still has a live record in the storage")
               else (js1, "1")
+
+/-- `req2`: the first load is judged like any load; after the reload the object must show what the *second* cookie
+denotes and nothing else — the working copy of a load starts empty (only a pending `reset_session()` survives) -/
+def judgeReq2 (js : JState) (b : Nat) (now : Int) (spec1 : String) (ops1 : List Op) (spec2 : String) (ops2 : List Op) (impl : List String) : JState × String :=
+  match impl with
+  | "P1" :: p1 :: "R1" :: r1 :: rest =>
+    let cur1 := Spec.alive now (js.toks.lookup p1)
+    let js := { js with stolen := js.stolen || spec1.startsWith "steal", dishonest := if spec1 == "jar" then js.dishonest else b :: js.dishonest }
+    match Spec.specLoad Spec.decimal js.df cur1 with
+    | .error _ => if r1 == "err:badCast" then (js, "1") else (js, "0 first load: expected the number error")
+    | .ok w1 =>
+      let expect1 := s!"{w1.age},{w1.how},{boolStr w1.srv},[{joinWith ";" (sortedReads w1.data)}]"
+      let got1 := match r1.splitOn ",[" with
+        | [hd, tl] => match parseReadsData ("[" ++ tl) with
+          | some es => s!"{hd},[{joinWith ";" (sortStrings (es.map fun (k, v, e) => s!"{toHex k}={v}:{boolStr e}"))}]"
+          | none => r1
+        | _ => r1
+      if expect1 != got1 then (js, s!"0 first load: reads differ from the token's session: expected {expect1}")
+      else
+        let w1' := ops1.foldl (fun w o => Spec.applyOp Spec.decimal js.df w (specOp o)) w1
+        judgeReq js b now spec2 ops2 rest w1'.reset true
+  | _ => (js, "0 unparsable implementation answer")
 
 /-! ### main loop -/
 
@@ -361,8 +417,16 @@ def step (s : DState) (line : String) : DState × String :=
   match words line with
   | "new" :: rest =>
     match parseNew rest with
-    | some cfg => ({ s with w := emptyWorld cfg }, "ok")
+    | some cfg => ({ s with w := emptyWorld cfg (rest.getD 1 "" == "network2" || rest.getD 1 "" == "network3") }, "ok")
     | none => (s, "bad-op")
+  | "req2" :: b :: now :: spec1 :: more =>
+    let ops1 := more.takeWhile (· != "/")
+    match (more.dropWhile (· != "/")).drop 1 with
+    | spec2 :: ops2 =>
+      match b.toNat?, parseInt now, parseOps ops1, parseOps ops2 with
+      | some b, some now, some ops1, some ops2 => let (w, o) := runReq2 s.trace s.w b now spec1 ops1 spec2 ops2; ({ s with w := w }, o)
+      | _, _, _, _ => (s, "bad-op")
+    | [] => (s, "bad-op")
   | "req" :: b :: now :: spec :: ops =>
     match b.toNat?, parseInt now, parseOps ops with
     | some b, some now, some ops => let (w, o) := runReq s.trace s.w b now spec ops; ({ s with w := w }, o)
@@ -371,7 +435,7 @@ def step (s : DState) (line : String) : DState × String :=
     match parseInt now with
     | some now =>
       let st := s.w.store.gc s.w.cfg.kind now
-      ({ s with w := { s.w with store := st } }, if s.trace then "gc" else s!"T {storeStr s.w.issued st}")
+      ({ s with w := { s.w with store := st } }, if s.trace then "gc" else s!"T {storeStr s.w.issued st (if s.w.liveOnly then some now else none)}")
     | none => (s, "bad-op")
   | "J" :: rest =>
     let (cs, impl) := (rest.takeWhile (· != ";;"), (rest.dropWhile (· != ";;")).drop 1)
@@ -384,6 +448,14 @@ def step (s : DState) (line : String) : DState × String :=
       match b.toNat?, parseInt now, parseOps ops with
       | some b, some now, some ops => let (js, o) := judgeReq s.js b now spec ops impl; ({ s with js := js }, o)
       | _, _, _ => (s, "bad-op")
+    | "req2" :: b :: now :: spec1 :: more =>
+      let ops1 := more.takeWhile (· != "/")
+      match (more.dropWhile (· != "/")).drop 1 with
+      | spec2 :: ops2 =>
+        match b.toNat?, parseInt now, parseOps ops1, parseOps ops2 with
+        | some b, some now, some ops1, some ops2 => let (js, o) := judgeReq2 s.js b now spec1 ops1 spec2 ops2 impl; ({ s with js := js }, o)
+        | _, _, _, _ => (s, "bad-op")
+      | [] => (s, "bad-op")
     | ["gc", _] => (s, "1")
     | _ => (s, "bad-op")
   | _ => (s, "bad-op")
